@@ -171,7 +171,7 @@ for _pid in ("C01", "C02", "C13"):
     PROPS[_pid]["theorem_modules"] = PROPS[_pid]["theorem_modules"] + ["DecProofs.Properties.SourceLevel5"]
 
 # the trait glue of d128.rs, translated (DecGen/Code3.lean, Api3.lean) and proved: operators = methods, From impls, folds, totality
-for _pid in ("C01", "C06", "C13", "C15"):
+for _pid in ("C01", "C06", "C10", "C12", "C13", "C15"):
     PROPS[_pid]["theorem_modules"] = PROPS[_pid]["theorem_modules"] + ["DecProofs.Properties.C15GenGlue", "DecProofs.Properties.C15GenGlue2"]
     PROPS[_pid]["static_modules"] = PROPS[_pid]["static_modules"] + ["DecProofs.Static.Translated3"]
 
